@@ -569,6 +569,87 @@ mod loaderseq {
         None
     }
 }
+/// C20 stand-in for the WHOLE way of a dynamically loaded macro's result back into the program: VM value -> Value -> FFI bytes ->
+/// plugin -> FFI bytes -> Value -> VM word (DynPluginMacroInfo + the compiler's interpreter_value_to_raw), through the public
+/// Plugin trait and ordinary mimium source.  The in-process plugin is a copy of the generated bridge; `ratio(n, d)` answers a
+/// plain number, and for d == 0 the interpreter's error marker, which cannot cross the boundary (seed C20o).
+mod macroresult {
+    use std::ffi::c_void;
+    use mimium_lang::ast::Expr;
+    use mimium_lang::compiler::EvalStage;
+    use mimium_lang::interner::{ToSymbol, TypeNodeId};
+    use mimium_lang::interpreter::Value;
+    use mimium_lang::plugin::loader::{DynPluginMacroInfo, PluginInstance};
+    use mimium_lang::plugin::{ExtFunTypeInfo, MachineFunction, MacroFunction, Plugin};
+    use mimium_lang::runtime::ffi_serde::{deserialize_macro_args, serialize_value};
+    use mimium_lang::utils::metadata::Location;
+    use mimium_lang::types::{PType, Type};
+    use mimium_lang::{function, numeric};
+
+    struct Ratio;
+    fn ratio(args: &[(Value, TypeNodeId)]) -> Value {
+        match args {
+            [(Value::Number(_), _), (Value::Number(d), _)] if *d == 0.0 => Value::ErrorV(Expr::Error.into_id(Location::internal())),
+            [(Value::Number(n), _), (Value::Number(d), _)] => Value::Number(n / d),
+            _ => Value::ErrorV(Expr::Error.into_id(Location::internal())),
+        }
+    }
+    unsafe extern "C" fn bridge(instance: *mut c_void, args_ptr: *const u8, args_len: usize, out_ptr: *mut *mut u8, out_len: *mut usize) -> i32 {
+        if instance.is_null() || args_ptr.is_null() || out_ptr.is_null() || out_len.is_null() { return -3; }
+        unsafe {
+            let args_bytes = std::slice::from_raw_parts(args_ptr, args_len);
+            let args = match deserialize_macro_args(args_bytes) { Ok(a) => a, Err(_) => return -1 };
+            let result = ratio(&args);
+            let bytes = match serialize_value(&result) { Ok(b) => b, Err(_) => return -2 };
+            let boxed = bytes.into_boxed_slice();
+            *out_len = boxed.len();
+            *out_ptr = Box::into_raw(boxed) as *mut u8;
+            0
+        }
+    }
+    struct StandIn { instance: *mut PluginInstance, ty: TypeNodeId }
+    impl StandIn {
+        fn new() -> Self { Self { instance: Box::into_raw(Box::new(Ratio)) as *mut PluginInstance, ty: function!(vec![numeric!(), numeric!()], numeric!()) } }
+    }
+    impl Plugin for StandIn {
+        fn get_macro_functions(&self) -> Vec<Box<dyn MacroFunction>> {
+            vec![Box::new(unsafe { DynPluginMacroInfo::new("ratio".to_symbol(), self.ty, self.instance, bridge) })]
+        }
+        fn get_ext_closures(&self) -> Vec<Box<dyn MachineFunction>> { vec![] }
+        fn get_type_infos(&self) -> Vec<ExtFunTypeInfo> { vec![ExtFunTypeInfo::new("ratio".to_symbol(), self.ty, EvalStage::Stage(0))] }
+    }
+    /// Ok(samples) | Err(how the program was refused)
+    pub fn run(src: &str) -> Result<Vec<f64>, String> {
+        use mimium_audiodriver::{backends::local_buffer::LocalBufferDriver, driver::{Driver, RuntimeData}};
+        use mimium_lang::{Config, ExecContext};
+        let src = src.to_string();
+        let r = std::panic::catch_unwind(std::panic::AssertUnwindSafe(move || -> Result<Vec<f64>, String> {
+            let mut driver = LocalBufferDriver::new(1);
+            let audiodriverplug: Box<dyn Plugin> = Box::new(driver.get_as_plugin());
+            let standin: Box<dyn Plugin> = Box::new(StandIn::new());
+            let mut ctx = ExecContext::new([standin, audiodriverplug].into_iter(), None, Config::default());
+            ctx.prepare_machine(&src).map_err(|e| format!("{} compile error(s)", e.len()))?;
+            let _ = ctx.run_main();
+            let runtimedata = { let c: &mut ExecContext = &mut ctx; RuntimeData::try_from(c).map_err(|_| "no runtime data".to_string())? };
+            driver.init(runtimedata, None);
+            driver.play();
+            Ok(driver.get_generated_samples().to_vec())
+        }));
+        match r {
+            Ok(x) => x,
+            Err(p) => Err(p.downcast_ref::<String>().cloned().or_else(|| p.downcast_ref::<&str>().map(|s| s.to_string())).unwrap_or_else(|| "panic".to_string())),
+        }
+    }
+    /// (program, Some(expected first sample) | None = must be refused, description)
+    pub fn programs() -> Vec<(&'static str, Option<f64>, &'static str)> {
+        vec![
+            ("fn dsp(){ $(ratio(1.0, 4.0) |> lift_f) }", Some(0.25), "a macro result that crosses the boundary reaches the program unchanged"),
+            ("fn dsp(){ $(ratio(-0.0, 1.0) |> lift_f) + 1.0 }", Some(1.0), "negative zero as a macro result"),
+            ("fn dsp(){ $(ratio(1.0, 0.0) |> lift_f) }", None, "a macro result that cannot cross the boundary is spliced"),
+            ("fn dsp(){ $((ratio(1.0, 0.0) + 100.0) |> lift_f) }", None, "a refused macro result is used in stage-0 arithmetic before it is lifted"),
+        ]
+    }
+}
 mod dropshared {
     use mimium_lang::mir::OpenUpValue;
     use mimium_lang::runtime::vm::{ClosureIdx, FuncProto, Instruction, Machine, Program};
@@ -1547,6 +1628,24 @@ fn main() {
             }
         }
         println!("NONE tried={}", cases.len());
+        return;
+    }
+    if args.get(1).map(|s| s.as_str()) == Some("macro-result") {
+        let only: Option<usize> = args.get(2).and_then(|s| s.parse().ok());
+        let prev = std::panic::take_hook();
+        std::panic::set_hook(Box::new(|_| {}));
+        for (i, (src, want, desc)) in macroresult::programs().iter().enumerate() {
+            if let Some(o) = only { if o != i { continue; } }
+            let got = macroresult::run(src);
+            let bad = match (want, &got) { (Some(v), Ok(o)) => o.first().map(|x| x.to_bits()) != Some(v.to_bits()), (Some(_), Err(_)) => true, (None, Ok(_)) => true, (None, Err(_)) => false };
+            if bad {
+                std::panic::set_hook(prev);
+                println!("FOUND index={i} value={desc:?} clause=C20[values that cannot cross the boundary are refused with an error rather than silently altered; what crosses decodes to what was encoded] program `{src}`: got {got:?}, expected {}", match want { Some(v) => format!("[{v:?}]"), None => "a refusal".to_string() });
+                return;
+            }
+        }
+        std::panic::set_hook(prev);
+        println!("NONE tried={}", macroresult::programs().len());
         return;
     }
     if args.get(1).map(|s| s.as_str()) == Some("module-misc") {
